@@ -366,6 +366,19 @@ namespace T
    template< typename A > using w_action_alt = p::action< p::nothing, A >;
    template< typename A > using w_control_alt = p::control< p::normal, A >;
    template< typename A > using w_raw1 = p::raw_string< '[', '=', ']', A >;
+   // a user-defined rule with its own analyze traits (analyze_any_traits< R >): R followed by a mandatory ';'
+   template< typename R >
+   struct custom_any
+   {
+      using rule_t = custom_any;
+      using subs_t = p::type_list< R >;
+      template< p::apply_mode A, p::rewind_mode M, template< typename... > class Action, template< typename... > class Control, typename In, typename... St >
+      [[nodiscard]] static bool match( In& in, St&&... st )
+      {
+         return p::seq< R, p::one< ';' > >::template match< A, M, Action, Control >( in, st... );
+      }
+   };
+   template< typename A > using w_custom_any = custom_any< A >;
    // clang-format on
 
    struct raise_msg : p::raise_message< 'r', 'm', 's', 'g' >
@@ -374,6 +387,7 @@ namespace T
    template< typename A, typename B, typename C > using w_separated_seq = p::separated_seq< A, B, C >;
    template< typename A, typename B, typename C > using w_if_then_else_then = typename p::if_then< A, B >::template else_then< C >;
    template< typename A, typename B > using w_if_then = p::if_then< A, B >;
+   template< typename A, typename B, typename C > using w_if_then_chain = typename p::if_then< A, B >::template else_if_then< B, C >::template else_if_then< C, A >;
    using raw_t = p::raw_string< '[', '=', ']' >;
    // clang-format on
 
@@ -427,12 +441,14 @@ namespace T
    T3( SEPARATED_SEQ, G_CONTRIB, w_separated_seq ) \
    T3( IF_THEN_ELSE_THEN, G_CONTRIB, w_if_then_else_then ) \
    B2( IF_THEN, G_CONTRIB, w_if_then ) \
+   T3( IF_THEN_CHAIN, G_CONTRIB, w_if_then_chain ) \
    A0( OPT_ONE_A, G_FILL, ( p::opt< p::one< 'a' > > ) ) \
    A0( AT_ONE_A, G_FILL, ( p::at< p::one< 'a' > > ) ) \
    A0( NOT_AT_ONE_A, G_FILL, ( p::not_at< p::one< 'a' > > ) ) \
    U1( ACTION_ALT, G_META, w_action_alt ) \
    U1( CONTROL_ALT, G_META, w_control_alt ) \
    U1( RAW1, G_META, w_raw1 ) \
+   U1( CUSTOM_ANY, G_META, w_custom_any ) \
    U1( STAR, G_CORE, w_star ) \
    U1( PLUS, G_CORE, w_plus ) \
    U1( OPT, G_CORE, w_opt ) \
